@@ -114,6 +114,11 @@ def judge_timeouts(probes, to_ms=400):
             elif pr.get("other_connection_status") != 200:
                 bad = "another connection was not served while %s peers stalled" % pr.get("positions")
             name = "stall-after-k-bytes-v%s" % pr.get("header_version")
+        elif name == "stall-5.6s-then-complete-header":
+            if pr.get("status") != 200 or pr.get("xff") != "7.7.7.7":
+                bad = ("on a listener with ReadHeaderTimeout 0 (no limit) a v%s header completed after a 5.6 s stall was not served "
+                       "with the advertised address: status %s xff %s %s" % (pr.get("header_version"), pr.get("status"), pr.get("xff"), pr.get("error", "")))
+            name = "no-limit-stall-then-complete-v%s" % pr.get("header_version")
         elif name == "after-all":
             if pr.get("status") != 200 or pr.get("xff") != "9.9.9.9":
                 bad = "after the timeout probes a well-formed connection got status %s xff %s" % (pr.get("status"), pr.get("xff"))
@@ -286,6 +291,8 @@ def run(ctx):
                 key += ":after-later-headers-were-read"
         elif kind == "ccases":
             key = CONN_VERDICTS.get(v, "conn-verdict-%d" % v)
+        elif kind == "lcases":
+            key = CONN_VERDICTS.get(v, "conn-verdict-%d" % v) + ":while-the-listener-rate-limit-is-exhausted"
         elif kind == "hcases":
             key = CONN_VERDICTS.get(v, "conn-verdict-%d" % v) + ":after-later-headers-were-read"
         elif kind == "ecases":
